@@ -13,6 +13,7 @@ import (
 	"strconv"
 	"strings"
 	"time"
+	"unicode/utf8"
 
 	"github.com/spali/go-rscp/rscp"
 )
@@ -91,8 +92,7 @@ func (n *jnode) text(sb *strings.Builder, g *gen) {
 	case "num":
 		sb.WriteString(n.lit)
 	case "str":
-		b, _ := json.Marshal(n.s)
-		sb.Write(b)
+		sb.WriteString(jsonStringText(n.s, g))
 	case "arr":
 		sb.WriteString("[")
 		for i, x := range n.arr {
@@ -111,14 +111,37 @@ func (n *jnode) text(sb *strings.Builder, g *gen) {
 				sb.WriteString(",")
 			}
 			ws()
-			b, _ := json.Marshal(n.keys[i])
-			sb.Write(b)
+			sb.WriteString(jsonStringText(n.keys[i], g))
 			sb.WriteString(":")
 			ws()
 			n.vals[i].text(sb, g)
 		}
 		sb.WriteString("}")
 	}
+}
+
+// jsonStringText writes a JSON string; now and then some of its characters as \uXXXX escapes (the same string for
+// every JSON reader)
+func jsonStringText(str string, g *gen) string {
+	b, _ := json.Marshal(str)
+	if g == nil || !utf8.ValidString(str) || !g.chance(0.2) {
+		return string(b)
+	}
+	if _, err := time.Parse(time.RFC3339Nano, str); err == nil {
+		return string(b) // time.Time.UnmarshalJSON reads the literal without unescaping it: such a text is refused, never mis-sent
+	}
+	var sb strings.Builder
+	sb.WriteString(`"`)
+	for _, r := range str {
+		if r < 0x10000 && g.chance(0.4) {
+			fmt.Fprintf(&sb, "\\u%04x", r)
+			continue
+		}
+		one, _ := json.Marshal(string(r))
+		sb.Write(one[1 : len(one)-1])
+	}
+	sb.WriteString(`"`)
+	return sb.String()
 }
 
 var plainIntRe = regexp.MustCompile(`^-?(0|[1-9][0-9]*)$`)
